@@ -1,4 +1,5 @@
 import HdVerif.Proofs.PMap
+import HdVerif.Proofs.PMapTie
 import HdVerif.Props.C07
 /-! # C19  Parametric maps and secondary captures store the given pixels
 
@@ -416,6 +417,32 @@ example : (scBuild noCodec "1.2.840.10008.1.2.1" "MONOCHROME2" 12 ⟨1, 3, none,
     (fun o => (o.bitsAllocated, o.bitsStored, o.highBit, o.frameBytes)) = some (12, 12, 11, [1,0, 0,16, 0,1]) := by decide
 example : ((scBuild noCodec "1.2.840.10008.1.2.1" "MONOCHROME2" 12 ⟨1, 3, none, .u16, [1, 4096, 256]⟩).toOption.map
     (fun o => (scDecode noCodec id "1.2.840.10008.1.2.1" o).toOption)) = some none := by decide
+
+/-! ## hand-written parts use the expressions of the current source (bridges, `Proofs/PMapTie.lean`, T19t / T19q) -/
+
+/-- **Tie, constructor guards**: the hand-written `admission` equals `admissionGen`, which is written with the rank sets
+(`pixel_array.ndim in (2, 3)` flat, `== 4` nested, anything else refused) and the count axes (`len(real_world_value_mappings)` vs
+axis 3, `len(plane_positions)` vs axis 0) REGENERATED from `ParametricMap.__init__` (T19t). -/
+theorem tie_constructor_guards (x : PMInput) : admission x = admissionGen x := admission_tie x
+
+/-- **Tie, Dimension Index Value**: the model's rank = regenerated base (`+ 1`) + 0-based position of the plane's value among the
+sorted distinct values; the regenerated match taken from `np.where(..)[0][N]` is the first. -/
+theorem tie_dimension_index (vs : List (List Rat)) (v : List Rat) :
+    rankIn vs v = pmDimIndexBase + (vs.eraseDups.filter (fun q => lexLt q v)).length ∧ pmDimIndexMatch = 0 :=
+  rankIn_tie vs v
+
+/-- **Tie, selector** (`pixels._select_real_world_value_map`, T19q): integer selectors subscript the sequence with the regenerated
+expression, strings are compared with the regenerated attribute `LUTLabel` taking the first match, kinds tested int, str, code. -/
+theorem tie_selector (ms : List Mapping) (k : Int) (s : String) :
+    select ms (.index k) = select ms (.index (rwvmSelectSubscript k)) ∧
+    rwvmSelectStringAttribute = "LUTLabel" ∧
+    select ms (.label s) = (match ms.find? (fun m => m.label == s) with | some m => .ok m | none => .error .index) ∧
+    rwvmSelectKinds = ["int", "str", "code"] :=
+  select_tie ms k s
+
+/-- non-vacuity: on the example input the regenerated guards admit, and refuse a 5-D array -/
+example : (admissionGen exampleInput).toOption.isSome = true ∧ (admissionGen { exampleInput with ndim := 5 }).toOption.isNone = true := by
+  decide
 
 /-! ### encapsulated: the hypotheses are met by a codec that accepts (`HdVerif.C07.tagCodec`: validates, one-byte header) -/
 
